@@ -208,6 +208,20 @@ def relations(cell, k, x1, x2, dense, fails, feats, seed):
             lz = k(xs)
             fails.check_close("stacked-blocks", lz[..., :r, r:].to_dense(), dense.expand(*big.shape[:-2], r, c), 1e-12, 1e-12, "lazy sliced block")
             ops += 3
+        with fails.guard("batch-ops"):
+            # operations on the BATCH dimensions of the lazy tensor (permute / transpose / unsqueeze / sum over a batch dimension)
+            nbd = dense.dim() - 2
+            if nbd >= 1:
+                lz = k(x1, x2)
+                fails.check_close("batch-ops", lz.unsqueeze(0).to_dense(), dense.unsqueeze(0), 1e-12, 1e-12, "unsqueeze(0)")
+                fails.check_close("batch-ops", k(x1, x2).sum(0).to_dense() if nbd > 1 else util.dense(k(x1, x2).sum(0)), dense.sum(0), 1e-10, 1e-12, "sum(0)")
+                ops += 2
+            if nbd >= 2:
+                perm = list(range(nbd))[::-1] + [nbd, nbd + 1]
+                fails.check_close("batch-ops", k(x1, x2).permute(*perm).to_dense(), dense.permute(*perm), 1e-12, 1e-12, "permute (batch dims reversed)")
+                fails.check_close("batch-ops", k(x1, x2).transpose(0, 1).to_dense(), dense.transpose(0, 1), 1e-12, 1e-12, "transpose(0, 1)")
+                fails.check_close("batch-ops", k(x1, x2).unsqueeze(1).to_dense(), dense.unsqueeze(1), 1e-12, 1e-12, "unsqueeze(1)")
+                ops += 3
         with fails.guard("repeat"):
             # repetition of the matrix dimensions and over a NEW leading batch dimension (torch.Tensor.repeat semantics);
             # repeating an existing batch dimension is not supported by linear_operator itself (BatchRepeatLinearOperator)
